@@ -23,7 +23,8 @@ open AGV.Model.ExecStatic (joinAll nnWrap insertKV singleKV prune)
 open AGV.Lemmas.ExecStaticData (selsInert selInert dirsInert spreads IsObj SchemaOK eraseSt specStep spec_collect_succ
   spreads_cons doesApply_self frag_mem builtinScalars kind_beq joinAll_vals mapIdx_map mapIdx_congr complete_nonNull_val
   complete_fail_val fieldVal HasField execStep_fold execSet_succ group_nodup kvs_fold keys_filterMap_sublist all_congr_mem
-  any_isNone_eq_not_all joinAll_all joinAll_eq_of_all foldl_insertKV_nodup prune_inert rootOf schemaWF schemaOK_of_wf listDepth)
+  any_isNone_eq_not_all joinAll_all joinAll_eq_of_all foldl_insertKV_nodup prune_inert rootOf schemaWF schemaOK_of_wf listDepth
+  argsSame)
 
 
 -- ------------------------------------------------------------------ the specification's schema: custom scalars renamed
@@ -1319,12 +1320,14 @@ theorem world_of_ok (c : Model.ExecDynamic.Ctx) (h : worldOK c.S c.w = true) :
       simp [isArg] at this
 
 
--- ------------------------------------------------------------------ validity for repeated response keys (open statement)
+-- ------------------------------------------------------------------ validity for repeated response keys (Lemmas/ExecDynamicMerge.lean)
 
 /-- like `noRepeatedKeys`, but a response key may repeat when all its occurrences name the same field
-    with the same arguments (FieldsInSetCanMerge, per runtime type); the sub-selections are then
-    checked merged.  `insert_value`'s model spends one unit of fuel per object level and per extra
-    list level, hence `listDepth ≤ 3` for repeated keys and `fuel ≥ 3 * fuelBound` in the statement. -/
+    with the same arguments (FieldsInSetCanMerge, per runtime type; "same arguments" = `argsSame`, the
+    structural equality of Lemmas/ExecStaticData.lean — the derived `==` on `DValue` is opaque to the
+    kernel, a hypothesis `o'.args == o.args` would say nothing); the sub-selections are then checked
+    merged.  The model's `merge` is given four units of fuel per selection level (an object level plus
+    up to three list levels), hence `listDepth ≤ 3` for repeated keys. -/
 def mergeableKeys (c : Model.ExecDynamic.Ctx) : Nat → String → List Sel → Bool
   | 0, _, _ => true
   | fuel + 1, rt, sels =>
@@ -1333,7 +1336,7 @@ def mergeableKeys (c : Model.ExecDynamic.Ctx) : Nat → String → List Sel → 
       match g.2 with
       | [] => true
       | o :: rest =>
-        rest.all (fun o' => o'.name = o.name && o'.args == o.args) &&
+        rest.all (fun o' => o'.name = o.name && argsSame o'.args o.args) &&
         (o.name = "__typename" ||
           match c.S.field? rt o.name with
           | none => false
